@@ -119,6 +119,7 @@ def run(ctx):
     symbol_digits(ctx, g)
     symbol_parts(ctx, g)
     subsymbol_shape(ctx, g)
+    ctx.floor("chamber-indexed tables in subsymbol", chamber_tables(ctx, "T4-chamber-table", ctx.body("derived::subsymbol"), g), 2)
     loopless_test(ctx, g)
     euler_formula(ctx, g)
     symbol_genus(ctx, g)
